@@ -631,6 +631,8 @@ def classify_tokens(text):
 
 
 def check(rep, tier):
+    from vlib import statecensus
+    statecensus.obligations(rep, 'C19', 'parser')
     rep.dropped = 'loop bodies / statement ranges of error_location are executed from their AST; make_suggestion executed whole; token and LALR tables from the imported classes'
     rep.assume('tokenizer contract (indices increase, tokens do not overlap)', 'reduce entries of LALR rows may carry spurious look-aheads: their suggestions are only replayed (bounded)',
                'the composition of the per-iteration lemmas into "carets under the token" is a paper argument (recorded in DESIGN §4 C19)')
